@@ -358,7 +358,7 @@ pub fn describe_inputs(n: usize, m: usize, layout: Layout, ints: &[i64]) -> Valu
             keys.dedup();
             let val = |x: &u32| -> i64 { ints.get(keys.binary_search(x).unwrap()).copied().unwrap_or(-1) };
             json!({"pattern": name, "k": k, "old_items_of_range": po.iter().map(val).collect::<Vec<_>>(), "new_items_of_range": pn.iter().map(val).collect::<Vec<_>>(),
-                   "extra_items_in_front_of_the_ranges": {"old": pad & 3, "new": (pad >> 2) & 3}, "index": "slices", "note": "pool items are pairwise different; the values are one model"})
+                   "extra_items_in_front_of_the_ranges": {"old": pad & 3, "new": (pad >> 2) & 3}, "index": if pad & 32 != 0 { "lookups into one interned pool shared by both sides (equal items are the same object)" } else if pad & 16 != 0 { "offset lookups valid only on the ranges (bases 5+pad / 1+pad)" } else { "slices" }, "note": "pool items are pairwise different; the values are one model"})
         }
         Layout::Offset { off_o, off_n } => {
             let old: Vec<i64> = ints.iter().take(n).cloned().collect();
